@@ -349,7 +349,11 @@ def s5_history(ctx):
 def s6_aggregates(ctx):
     M = ctx.M
     M.call_graph()
+    builtin_methods = set(dir(str)) | set(dir(dict)) | set(dir(list)) | set(dir(float)) | set(dir(tuple)) | set(dir(set))
     for fn, n, how in M._unresolved:
+        if isinstance(n.func, ast.Attribute) and n.func.attr in builtin_methods and how.startswith('unresolved-attr'):
+            # a method of a built-in type (txn.asset.upper()): the receiver is a string / dict / list, whatever class its NAME made the typing guess
+            continue
         if fn.cls is not None and fn.cls.name in ('SimulatedBroker', 'Portfolio', 'PositionHandler', 'Position'):
             ctx.violation('C01.S6', 'call %s in %s does not resolve to any definition' % (ast.unparse(n.func), fn.qn), fn.site(n),
                           'R-RESOLVE: %s - the call raises AttributeError when reached ("totals are always obtainable")' % how,
@@ -430,5 +434,10 @@ def s3b_refused_movements(ctx):
         reps, nraise, npaths = dirty_raises(ctx, e, protected=prot)
         for r in reps:
             inst = '%s: refusal %s in %s leaves every balance and the history untouched' % (e, r['exc'], r['fn'])
+            if r['writes'] and r.get('implicit'):
+                # not an explicit refusal: the possible miss of a table lookup that happens to sit inside a try block (see C15.S1); whether the key can be absent is
+                # not bounded by this analysis
+                ctx.undecided('C01.S3b', inst, r['site'], 'possible miss of a table lookup, not an explicit refusal')
+                continue
             ctx.require(not r['writes'], 'C01.S3b', inst, r['site'], 'writes that may precede the refusal: ' + '; '.join('%s via %s at %s' % w[:3] for w in r['writes'][:4]),
                         key='C01.S3b|%s|%s:%s' % (e, r['fn'], r['exc']))
